@@ -11,7 +11,7 @@ RULE = ("seeded grammars (<=4 variables, <=3 terminals, <=9 productions, bodies 
         "the least-fixpoint bounded language for every word up to the bound plus words with a foreign symbol; "
         "non-trivial = bounded language has >=2 words and some word is rejected; distinct = (grammar digest, "
         "order signature)")
-ASSUMPTIONS = ["variable and terminal value sets are disjoint (a grammar has V and Sigma disjoint)",
+ASSUMPTIONS = ["variable and terminal symbol sets are disjoint (a grammar has V and Sigma disjoint); in part of the cases one variable and one terminal carry the same value",
                "bounded comparison: all words of length <= 5 (<=2 terminals) or <= 4 (3 terminals)"]
 
 
